@@ -41,7 +41,13 @@ def _memoize_default(default=_NO_DEFAULT, inference_state_is_first_arg=False,
             else:
                 if default is not _NO_DEFAULT:
                     memo[key] = default
-                rv = function(obj, *args, **kwargs)
+                try:
+                    rv = function(obj, *args, **kwargs)
+                except BaseException:
+                    # Don't leave the recursion default behind, it would be
+                    # returned as the result of later calls.
+                    memo.pop(key, None)
+                    raise
                 memo[key] = rv
                 return rv
         return wrapper
@@ -114,7 +120,14 @@ def inference_state_method_generator_cache():
                         return
                 except IndexError:
                     cached_lst.append(_RECURSION_SENTINEL)
-                    next_element = next(actual_generator, None)
+                    try:
+                        next_element = next(actual_generator, None)
+                    except BaseException:
+                        # The generator is dead now. Forget it, otherwise later
+                        # calls would silently see a truncated result.
+                        cached_lst.pop()
+                        memo.pop(key, None)
+                        raise
                     if next_element is None:
                         cached_lst.pop()
                         return
